@@ -339,7 +339,9 @@ func (g *TemplateGenerator) getTemplate(ctx context.Context) (string, *gojsonsch
 			continue
 		}
 		var remoteTemplate *RemoteTemplate
-		if cachedRemoteTemplate, ok := g.remoteTemplateCache[g.templateName]; !ok {
+		// The same template can be used with different schemas by different
+		// output files: a cached entry is only reused for the same schema.
+		if cachedRemoteTemplate, ok := g.remoteTemplateCache[g.templateName]; !ok || cachedRemoteTemplate.schemaURL != g.templateSchema {
 			remoteTemplate = NewRemoteTemplate(g.templateName, g.templateSchema)
 			g.remoteTemplateCache[g.templateName] = remoteTemplate
 		} else {
